@@ -133,10 +133,11 @@ type tlDrv struct {
 }
 
 func (d *tlDrv) feed(tg c10.Target, class string, data []byte) {
-	in := ev.M{"ty": tg.Ty, "op": tg.Op, "go": tg.T.String(), "hex": hex.EncodeToString(data), "size": len(data), "val": false}
+	in := ev.M{"ty": tg.Ty, "op": tg.Op, "go": tg.T.String(), "hex": hex.EncodeToString(data), "size": len(data), "val": false,
+		"guard": guardTL(d.s, tg.Ty, data)}
 	var v reflect.Value
 	var rest int
-	d.r.CallPost("TlDecode", "tl.Unmarshal", class, in, []string{"ty", "op", "size", "val"}, func(out ev.M) error {
+	d.r.CallPost("TlDecode", "tl.Unmarshal", class, in, []string{"ty", "op", "size", "val", "guard"}, func(out ev.M) error {
 		var err error
 		v, rest, err = tlUnmarshal(tg.T, data)
 		return err
